@@ -31,7 +31,9 @@ import (
 	"github.com/elastos/Elastos.ELA/blockchain"
 	"github.com/elastos/Elastos.ELA/blockchain/indexers"
 	"github.com/elastos/Elastos.ELA/common"
+	"github.com/elastos/Elastos.ELA/common/config"
 	"github.com/elastos/Elastos.ELA/core/types"
+	"github.com/elastos/Elastos.ELA/database/ffldb"
 )
 
 var (
@@ -53,6 +55,10 @@ func tmpBase() string {
 	return d
 }
 
+// memoryFirst: the node of the current history runs with MemoryFirst (JSON "NodeProfileStrategy"), in which
+// the indexed-transaction cache in front of the tx index is switched off
+var memoryFirst bool
+
 func reset() {
 	if node != nil {
 		node.Close()
@@ -61,7 +67,8 @@ func reset() {
 	nodeSeq++
 	nodeDir = filepath.Join(tmpBase(), fmt.Sprintf("c13-%d-%d", os.Getpid(), nodeSeq))
 	os.RemoveAll(nodeDir)
-	n, err := regnet.NewNode(nodeDir, regnet.Options{CoinbaseMaturity: 1})
+	mf := memoryFirst
+	n, err := regnet.NewNode(nodeDir, regnet.Options{CoinbaseMaturity: 1, Tweak: func(p *config.Configuration) { p.MemoryFirst = mf }})
 	if err != nil {
 		panic("harness: new node: " + err.Error())
 	}
@@ -193,7 +200,25 @@ func exec(t []string) string {
 	pending = nil
 	switch t[0] {
 	case "reset":
+		memoryFirst = false
 		reset()
+		return "ok"
+	case "mode": // mode m: a fresh node in memory-first configuration (right after reset)
+		memoryFirst = t[1] == "m"
+		reset()
+		return "ok"
+	case "fpol": // fpol d|c: every ffldb commit from now on takes the flush-then-write-through path / the cached path
+		db := blockchain.VerifDB(node.Store.GetFFLDB())
+		if t[1] == "d" {
+			ffldb.VerifSetCache(db, 100<<20, 0)
+		} else {
+			ffldb.VerifSetCache(db, 100<<20, time.Hour)
+		}
+		return "ok"
+	case "flush": // the write-back cache goes to leveldb now (as after 5 minutes or 20 MB)
+		if err := ffldb.VerifFlush(blockchain.VerifDB(node.Store.GetFFLDB())); err != nil {
+			return "err"
+		}
 		return "ok"
 	case "init":
 		if strings.Join(t[1:], " ") != node.Describe(node.Genesis) {
@@ -574,9 +599,23 @@ func gen(g *hx.Gen) {
 func oneHistory(g *hx.Gen, steps int) {
 	r := g.R
 	g.Emit("reset")
+	if r.Chance(25) {
+		g.Emit("mode m")
+	}
 	g.Emit("init %s", node.Describe(node.Genesis))
 	h := &hist{g: g}
+	flushy := r.Chance(40) // this history plays with the write-back cache of ffldb
 	for s := 0; s < steps; s++ {
+		if flushy {
+			switch r.Intn(6) {
+			case 0:
+				g.Emit("flush")
+			case 1:
+				g.Emit("fpol d")
+			case 2:
+				g.Emit("fpol c")
+			}
+		}
 		tip, th := h.tipID()
 		c := r.Intn(100)
 		switch {
